@@ -269,6 +269,9 @@ def persistence(chk, tier, r):
                          'key_types': [t.replace('_', '-') for t in kts], 'endpoints': eps,
                          'eab': {'identifier': 'kid-é-%d' % i, 'key_hex': os.urandom(r.randint(1, 64)).hex(), 'alg': r.choice(['HS256', 'HS384', 'HS512'])} if i % 2 else None})
         rc, recs, err = C.probe('acctrt', reqs, timeout=3600)
+        if rc == 64:
+            chk.inconclusive.append('account probe unavailable: %s' % err)
+            return
         if rc != 0:
             raise C.Inconclusive('acctrt probe failed rc=%s %s' % (rc, err[-300:]))
         out = {rec['id']: rec for rec in recs if not rec.get('begin')}
